@@ -94,8 +94,9 @@ def fmtFs (fs : FS) : String := joinSorted (fs.map fun e => labelOf e.1 ++ "=" +
 def fmtListing (l : List (String × Int × Bool × Nat)) : String :=
   joinSorted (l.map fun e => s!"{e.1}:{e.2.1}:{e.2.2.2}")
 
-/-- what the write tracer reports for an operation list: per removed file, bytes written to it
-    since it was last opened and whether they were all zero -/
+/-- what the write tracer reports for an operation list: per removed file, the bytes written to it
+    within this operation since it was last created (or since the operation began) and whether
+    they were all zero -/
 def wipedOf (ops : List FsOp) : List String :=
   let rec go (ops : List FsOp) (acc : List (Name × Nat × Bool)) (out : List String) : List String :=
     match ops with
@@ -279,7 +280,9 @@ def implObs (st : St) (op : Op) (line : String) : Option Obs :=
 def judgeLs (st : St) (entries : List (String × String)) : Option String :=
   if !(st.h.up && st.nc.store.persistent && st.nc.store.wipeOnExpiry) then none else
   entries.findSome? fun (l, c) =>
-    if l.startsWith "!" || st.excused.contains l then none
+    -- a file whose wipe failed with an injected I/O error is on the store's retry list: the next
+    -- sweep without error must remove it, until then the property cannot ask for more
+    if l.startsWith "!" || st.excused.contains l || (st.h.w.sys.pending.map labelOf).contains l then none
     else if l.startsWith "?" then some "file-outlives-chunk"
     else StoreSpec.judgeFile st.spec.s st.h.cleaned l (decodeBytes (candidates st l) c)
 
@@ -320,10 +323,10 @@ def badWipe (modelW : List String) (implW : String) : Bool :=
   (implW.splitOn ",").any fun e =>
     !modelW.contains e && modelW.any fun m => (m.splitOn ":").head? == (e.splitOn ":").head?
 
-/-- run a parsed op on the model and the abstract store -/
-def execOp (st : St) (op : Op) (impl : Option String) (trace : Bool) : St × String × String :=
-  let ops := fsOpsOf st.nc st.h.w op
-  let r := step st.nc st.h.w op
+/-- run a parsed op on the model (under the injected I/O errors `φ`) and the abstract store -/
+def execOp (st : St) (op : Op) (impl : Option String) (trace : Bool) (φ : Faults := []) : St × String × String :=
+  let ops := fsOpsOfF st.nc φ st.h.w op
+  let r := stepF st.nc φ st.h.w op
   let out := fmtObs st op r.2 ops trace
   let verdict := match impl with
     | none => "ok"
@@ -333,9 +336,10 @@ def execOp (st : St) (op : Op) (impl : Option String) (trace : Bool) : St × Str
         | some o => verdictOf (StoreSpec.judge (params st) st.spec op o)
         | none => "ok"     -- unparsable: shows up as a divergence
       if v1 != "ok" then v1
-      else if trace && st.nc.store.persistent && st.nc.store.wipeOnExpiry && badWipe (wipedOf ops) wiped
+      -- under an injected write error the overwrite cannot be completed: only the removal is demanded
+      else if trace && φ.isEmpty && st.nc.store.persistent && st.nc.store.wipeOnExpiry && badWipe (wipedOf ops) wiped
         then "viol:wipe-overwrite" else "ok"
-  let st' := { st with h := hstep st.nc st.h (.op op), spec := StoreSpec.step (params st) st.spec op }
+  let st' := { st with h := hstep st.nc st.h (.fail op φ), spec := StoreSpec.step (params st) st.spec op }
   (st', out, verdict)
 
 def stepLine (trace : Bool) (st : St) (tok : List String) (_line : String) (impl : Option String) : St × String × String :=
@@ -350,7 +354,7 @@ def stepLine (trace : Bool) (st : St) (tok : List String) (_line : String) (impl
       -- first listing after a crash: adopt the implementation's crash state if the model can explain it
       match resolveCrash pd entries with
       | .ok fs =>
-        let st' := { st with h := { st.h with w := { st.h.w with sys := { recs := [], fs := fs } } }, pending := none }
+        let st' := { st with h := { st.h with w := { st.h.w with sys := { recs := [], fs := fs, pending := [] } } }, pending := none }
         (st', if st.dirExists then fmtFs fs else "nodir", "ok")
       | .error l => ({ st with pending := none }, "unexplained-crash-state:" ++ l, "ok")
     | _, _ =>
@@ -372,6 +376,20 @@ def stepLine (trace : Bool) (st : St) (tok : List String) (_line : String) (impl
     | some d =>
       ({ st with h := hstep st.nc st.h (.op (.advance d)), spec := { st.spec with now := st.spec.now + d } }, "ok", "ok")
     | none => (st, "bad-op", "ok")
+  | "failat" :: k :: short :: rest =>
+    if !st.inited || !st.h.up then (st, "no-instance", "ok") else
+    match k.toNat?, short.toNat? with
+    | some kv, some sv =>
+      let φ : Faults := [(kv, sv)]
+      if rest == ["restart"] then
+        let ops := (wipeAllF st.nc.store φ (purgeNames st.nc.store st.h.w.sys.fs) st.h.w.sys.fs 0).1
+        let st' := { st with h := hstep st.nc st.h (.restartF φ), spec := { st.spec with s := [] }, excused := [] }
+        (st', "ok" ++ wipedSuffix trace ops, "ok")
+      else
+        match parseOp st rest impl with
+        | some op => execOp st op impl trace φ
+        | none => (st, "bad-op", "ok")
+    | _, _ => (st, "bad-op", "ok")
   | "crashat" :: _ :: rest =>
     -- the process dies inside the op (which prefix of its file-system operations happened is
     -- settled by the next `ls`); memory is lost
@@ -382,7 +400,7 @@ def stepLine (trace : Bool) (st : St) (tok : List String) (_line : String) (impl
     match ops? with
     | none => (st, "bad-op", "ok")
     | some ops =>
-      ({ st with h := { st.h with up := false, w := { st.h.w with sys := { st.h.w.sys with recs := [] } } },
+      ({ st with h := { st.h with up := false, w := { st.h.w with sys := { st.h.w.sys with recs := [], pending := [] } } },
                  spec := { st.spec with s := [] }, pending := some ⟨st.h.w.sys.fs, ops⟩ }, "crashed", "ok")
   | "crash" :: rest =>
     if !st.inited || !st.h.up then (st, "no-instance", "ok") else
@@ -391,9 +409,9 @@ def stepLine (trace : Bool) (st : St) (tok : List String) (_line : String) (impl
       let ops := ctorOps st.nc.store st.h.w.sys.fs
       if completed then
         let st' := { st with h := hstep st.nc st.h .restart, spec := { st.spec with s := [] }, excused := [] }
-        (st', s!"fsops={countEvents ops} ok" ++ wipedSuffix trace ops, "ok")
+        (st', s!"fsops={countEvents ops} calls={(wipeAllF st.nc.store [] (purgeNames st.nc.store st.h.w.sys.fs) st.h.w.sys.fs 0).2.1} ok" ++ wipedSuffix trace ops, "ok")
       else
-        ({ st with h := { st.h with up := false, w := { st.h.w with sys := { st.h.w.sys with recs := [] } } },
+        ({ st with h := { st.h with up := false, w := { st.h.w with sys := { st.h.w.sys with recs := [], pending := [] } } },
                    spec := { st.spec with s := [] }, pending := some ⟨st.h.w.sys.fs, ops⟩ }, "crashed", "ok")
     else
       let inner := impl.map fun l => " ".intercalate ((l.splitOn " ").drop 1)
@@ -402,10 +420,10 @@ def stepLine (trace : Bool) (st : St) (tok : List String) (_line : String) (impl
       | some op =>
         let ops := fsOpsOf st.nc st.h.w op
         if completed then
-          let (st', out, v) := execOp st op inner trace
-          (st', s!"fsops={countEvents ops} " ++ out, v)
+          let (st', out, v) := execOp st op (inner.map fun l => " ".intercalate ((l.splitOn " ").drop 1)) trace
+          (st', s!"fsops={countEvents ops} calls={callsOf st.nc st.h.w op} " ++ out, v)
         else
-          ({ st with h := { st.h with up := false, w := { st.h.w with sys := { st.h.w.sys with recs := [] } } },
+          ({ st with h := { st.h with up := false, w := { st.h.w with sys := { st.h.w.sys with recs := [], pending := [] } } },
                      spec := { st.spec with s := [] }, pending := some ⟨st.h.w.sys.fs, ops⟩ }, "crashed", "ok")
   | _ =>
     if !st.inited || !st.h.up then (st, "no-instance", "ok") else
